@@ -2,7 +2,7 @@
 //! prints a canonical transcript of every scenario of a bounded grammar. The
 //! two transcripts must be byte-identical.
 
-use prometheus::core::Collector;
+use prometheus::core::{Collector, Desc};
 use prometheus::proto::{Metric, MetricFamily, MetricType};
 use prometheus::{
     Counter, CounterVec, Encoder, Gauge, GaugeVec, Histogram, HistogramOpts, HistogramVec, IntCounter, IntGaugeVec, Opts, PullingGauge,
@@ -45,21 +45,25 @@ fn dump(mfs: &[MetricFamily], out: &mut String) {
         for m in mf.get_metric() {
             let labels: Vec<(String, String)> = m.get_label().iter().map(|l| (l.name().to_string(), l.value().to_string())).collect();
             let h = m.get_histogram();
+            let sm = m.get_summary();
             out.push_str(&format!(
-                "  M {:?} ts={} c={} g={} h=({},{},{:?})\n",
+                "  M {:?} ts={} c={} g={} h=({},{},{:?}) s=({},{},{:?})\n",
                 labels,
                 m.timestamp_ms(),
                 fb(cval(m)),
                 fb(gval(m)),
                 h.get_sample_count(),
                 fb(h.get_sample_sum()),
-                h.get_bucket().iter().map(|b| (fb(b.upper_bound()), b.cumulative_count())).collect::<Vec<_>>()
+                h.get_bucket().iter().map(|b| (fb(b.upper_bound()), b.cumulative_count())).collect::<Vec<_>>(),
+                sm.get_sample_count(),
+                fb(sm.get_sample_sum()),
+                sm.get_quantile().iter().map(|q| (fb(q.get_quantile()), fb(q.get_value()))).collect::<Vec<_>>()
             ));
         }
     }
 }
 
-const KINDS: usize = 12;
+const KINDS: usize = 13;
 const SCRIPTS: usize = 5;
 
 /// Build collector `kind` and apply update script `s` (<=3 operations).
@@ -166,6 +170,7 @@ fn build(kind: usize, s: usize) -> Box<dyn Collector> {
             }
             Box::new(v)
         }
+        12 => Box::new(Custom { desc: Desc::new("cust".into(), "help cust".into(), vec![], HashMap::new()).unwrap(), variant: s }),
         _ => {
             let v = HistogramVec::new(HistogramOpts::new("hv", "help hv").buckets(vec![0.25, 2.0]), &["l"]).unwrap();
             for i in 0..s.min(3) {
@@ -176,6 +181,88 @@ fn build(kind: usize, s: usize) -> Box<dyn Collector> {
             }
             Box::new(v)
         }
+    }
+}
+
+/// A custom collector handing hand-built families to the registry: payloads that do not match the
+/// declared type, histograms built without some optional fields, a summary, timestamps.
+struct Custom {
+    desc: Desc,
+    variant: usize,
+}
+
+impl Collector for Custom {
+    fn desc(&self) -> Vec<&Desc> {
+        vec![&self.desc]
+    }
+    fn collect(&self) -> Vec<MetricFamily> {
+        use prometheus::proto;
+        let lp = |k: &str, v: &str| {
+            let mut l = proto::LabelPair::default();
+            l.set_name(k.to_string());
+            l.set_value(v.to_string());
+            l
+        };
+        let mut g = proto::Gauge::default();
+        g.set_value(7.0);
+        let mut c = proto::Counter::default();
+        c.set_value(5.0);
+        let mut mf = MetricFamily::default();
+        mf.set_name("cust".to_string());
+        mf.set_help("help cust".to_string());
+        let mut m1 = Metric::from_label(vec![lp("q", "a")]);
+        let mut m2 = Metric::from_label(vec![lp("q", "b")]);
+        match self.variant {
+            0 => {
+                // declared counter; one counter sample, one gauge sample
+                mf.set_field_type(MetricType::COUNTER);
+                m1.set_counter(c);
+                m2.set_gauge(g);
+            }
+            1 => {
+                // declared gauge; counter payload, and a sample carrying both payloads and a timestamp
+                mf.set_field_type(MetricType::GAUGE);
+                m1.set_counter(c.clone());
+                m2.set_counter(c);
+                m2.set_gauge(g);
+                m2.set_timestamp_ms(-5);
+            }
+            2 | 3 => {
+                // histograms built by hand: without sample_count but with an explicit +Inf bucket; with explicit zero count
+                mf.set_field_type(MetricType::HISTOGRAM);
+                let bucket = |ub: f64, n: u64| {
+                    let mut b = proto::Bucket::default();
+                    b.set_upper_bound(ub);
+                    b.set_cumulative_count(n);
+                    b
+                };
+                let mut h1 = proto::Histogram::default();
+                h1.set_sample_sum(2.5);
+                h1.set_bucket(vec![bucket(1.0, 2), bucket(f64::INFINITY, 6)]);
+                if self.variant == 3 {
+                    h1.set_sample_count(0);
+                }
+                let mut h2 = proto::Histogram::default();
+                h2.set_sample_count(4);
+                h2.set_bucket(vec![bucket(0.5, 1)]);
+                m1.set_histogram(h1);
+                m2.set_histogram(h2);
+            }
+            _ => {
+                mf.set_field_type(MetricType::SUMMARY);
+                let mut s1 = proto::Summary::default();
+                s1.set_sample_count(3);
+                s1.set_sample_sum(-0.0);
+                let mut q = proto::Quantile::default();
+                q.set_quantile(0.5);
+                q.set_value(f64::NAN);
+                s1.set_quantile(vec![q]);
+                m1.set_summary(s1);
+                m2.set_summary(proto::Summary::default());
+            }
+        }
+        mf.set_metric(vec![m2, m1]);
+        vec![mf]
     }
 }
 
